@@ -33,6 +33,10 @@ CTYPES = r"(?:unsigned\s+|signed\s+|const\s+)*(?:Py_ssize_t|ssize_t|size_t|int64
 PARAM_RE = re.compile(r"^\s*(?P<ty>%s)\s*(?P<ptr>\*+)?\s*(?P<name>[A-Za-z_]\w*)\s*(?P<default>=.*)?$" % CTYPES)
 
 
+SCALAR_DECL_RE = re.compile(r"^((?:unsigned\s+|signed\s+)?(?:Py_ssize_t|ssize_t|size_t|int64_t|int32_t|int16_t|int8_t|uint64_t|uint32_t|uint16_t|"
+                            r"uint8_t|long\s+long|long|int|short|char|bint))\s+[A-Za-z_]\w*(\s*,\s*[A-Za-z_]\w*)*$")
+
+
 class PyxError(Exception):
     pass
 
@@ -299,6 +303,11 @@ def translate(repo, relpath, sigs=None, _depth=0):
                     name = lhs.replace("*", " ").split()[-1]
                     out.append(" " * ind + "%s = %s" % (name, _rewrite_expr(rhs.strip(), fn_stack[-1][1])))
                     emitted = True
+                elif fn_stack and "*" not in d and SCALAR_DECL_RE.match(d):
+                    # an uninitialised C scalar holds an indeterminate value (its address may be passed as an out-parameter)
+                    for name in d.split(None, SCALAR_DECL_RE.match(d).group(1).count(" ") + 1)[-1].split(","):
+                        out.append(" " * ind + "%s = __undef__()" % name.strip())
+                        emitted = True
             if not emitted and fn_stack and ind > fn_stack[-1][0]:
                 out.append(" " * ind + "pass")
             continue
